@@ -228,6 +228,12 @@ Final ==
   /\ phase' = "idle"
   /\ UNCHANGED <<g, dst, srcIn, dstIn, nPush, nFetch, cbs, pushed, cbFail, ret>>
 
+\* another writer stored a leaf blob in the destination (fault phase "race"): it is present from now on
+Foreign ==
+  /\ Rec.e = "foreign"
+  /\ dst' = dst \cup {Rec.n}
+  /\ UNCHANGED <<g, srcIn, dstIn, nPush, nFetch, cbs, pushed, cbFail, ret, phase, viol>>
+
 Other ==
   /\ Rec.e \in {"cancel", "maproot", "fault"}
   /\ UNCHANGED <<g, dst, srcIn, dstIn, nPush, nFetch, cbs, pushed, cbFail, ret, phase, viol>>
@@ -237,7 +243,7 @@ Step ==
   /\ l' = l + 1
   /\ done' = FALSE
   /\ \/ EvInit \/ SrcBegin \/ SrcEnd \/ DstBegin \/ ExistsEnd \/ PushEnd \/ Callback
-     \/ Return \/ Hang \/ Panic \/ RetryBegin \/ RetryEnd \/ Final \/ Other
+     \/ Return \/ Hang \/ Panic \/ Foreign \/ RetryBegin \/ RetryEnd \/ Final \/ Other
 
 Finish ==
   /\ l = Len(Trace) + 1 /\ ~done
